@@ -9,6 +9,6 @@ S=$(mktemp -d /dev/shm/verif-setup.XXXXXX 2>/dev/null || mktemp -d)
 trap 'rm -rf "$S"' EXIT
 cp spec/*.tla "$S"/
 for f in "$S"/*.tla; do
-  (cd "$S" && timeout 120 java -cp /opt/veriftools/tla/tla2tools.jar:/opt/veriftools/tla/CommunityModules-deps.jar tla2sany.SANY "$(basename "$f")" >"$f.sany" 2>&1) || { cat "$f.sany"; echo "SANY failed on $f"; exit 1; }
+  (cd "$S" && timeout 120 java -DTLA-Library=/opt/veriftools/tlapm/lib/tlapm/stdlib -cp /opt/veriftools/tla/tla2tools.jar:/opt/veriftools/tla/CommunityModules-deps.jar tla2sany.SANY "$(basename "$f")" >"$f.sany" 2>&1) || { cat "$f.sany"; echo "SANY failed on $f"; exit 1; }
 done
 echo "setup ok"
